@@ -751,7 +751,7 @@ impl Property for C05 {
     }
 
     fn cases(&self, tier: Tier) -> u32 {
-        tier.pick(20_000, 500_000)
+        tier.pick(120_000, 1_000_000)
     }
 
     fn rule(&self) -> String {
